@@ -21,20 +21,29 @@ EXTENDS Integers, Sequences, FiniteSets, TLC, Json, IOUtils, SequencesExt
 
 NULL == "null"
 \* field -> candidate values (by name; the harness maps names to typed values)
-DocFields == <<"s", "i", "f", "b">>
+DocFields == <<"s", "i", "f", "b", "t">>
+\* t is a DateTime; the same instant written with and without a zone offset are different contents, but each of them
+\* must get one id whichever way it is handed over (as text or as a time value that carries the zone)
+TUtc == "2020-01-02T03:04:05Z"
+TOff == "2020-01-02T03:04:05-05:00"
 ValuesOf(f) == CASE f = "s" -> {NULL, "a", ""} [] f = "i" -> {NULL, "0", "7"} [] f = "f" -> {NULL, "1.5"} [] f = "b" -> {NULL, "true"}
-Contents == [ {"s", "i", "f", "b"} -> {NULL, "a", "", "0", "7", "1.5", "true"} ]
-ValidContent(c) == \A f \in DOMAIN c : c[f] \in ValuesOf(f)
+                 [] f = "t" -> {NULL, TUtc, TOff}
+Contents == [ {"s", "i", "f", "b", "t"} -> {NULL, "a", "", "0", "7", "1.5", "true", TUtc, TOff} ]
+\* (documents with a DateTime are combined with a reduced set of the other fields to keep the table small)
+ValidContent(c) == /\ \A f \in DOMAIN c : c[f] \in ValuesOf(f)
+                   /\ c["t"] # NULL => (c["s"] = "a" /\ c["f"] = NULL /\ c["b"] = NULL /\ c["i"] \in {NULL, "7"})
 Key(c) == {<<f, c[f]>> : f \in {g \in DOMAIN c : c[g] # NULL}}
 
 Injective(s) == \A i, j \in DOMAIN s : i # j => s[i] # s[j]
 Perms(S) == {s \in [1..Cardinality(S) -> S] : Injective(s)}
 \* a reduced family of field orders: identity, reverse and two rotations
-FieldOrders == {<<"s", "i", "f", "b">>, <<"b", "f", "i", "s">>, <<"i", "f", "b", "s">>, <<"f", "s", "b", "i">>}
-Vias == {"json", "map", "gql"}
+FieldOrders == {<<"s", "i", "f", "b", "t">>, <<"t", "b", "f", "i", "s">>, <<"i", "f", "t", "b", "s">>, <<"f", "s", "b", "t", "i">>}
+\* "maptime": a Go map whose DateTime value is a time.Time carrying the zone (only distinct from "map" when t is set)
+Vias == {"json", "map", "gql", "maptime"}
 NullStyles == {"explicit", "omitted"}
-DocRoutes == { [content |-> c, order |-> o, via |-> v, nulls |-> n, key |-> Key(c)]
+AllRoutes == { [content |-> c, order |-> o, via |-> v, nulls |-> n, key |-> Key(c)]
                : c \in {x \in Contents : ValidContent(x)}, o \in FieldOrders, v \in Vias, n \in NullStyles }
+DocRoutes == { r \in AllRoutes : r.via = "maptime" => r.content["t"] # NULL }
 \* expected partition: routes are in the same class iff their keys are equal (stated for the harness as the key itself)
 ASSUME \A r1, r2 \in DocRoutes : (r1.content = r2.content) => (r1.key = r2.key)
 
@@ -45,7 +54,10 @@ Graphs == [isolated |-> {"A", "B"},
            selfref |-> {"User"},
            triangle |-> {"A", "B", "C"},
            cycletail |-> {"A", "B", "C"},
-           four |-> {"A", "B", "C", "D"}]
+           four |-> {"A", "B", "C", "D"},
+           \* a self-referencing type declared together with unrelated plain types: the ids of the plain types must not
+           \* depend on whether the circular type is in the same call
+           mixedself |-> {"Book", "User", "Shelf"}]
 \* all ways to cut a sequence into consecutive non-empty blocks
 RECURSIVE Cuts(_)
 Cuts(s) == IF Len(s) = 0 THEN {<<>>}
